@@ -1,0 +1,46 @@
+//go:build verif
+
+// Package verifhook carries the instrumentation points used by the model-based
+// verification harness. It is only active when built with the "verif" tag; see hook_off.go.
+package verifhook
+
+import "sync/atomic"
+
+// Hooks is the set of callbacks a harness may install. Nil members are skipped.
+type Hooks struct {
+	// Write is called after every positional write issued through the CAR writers:
+	// the target, the absolute offset, the bytes, the reported count and error.
+	Write func(target any, off int64, p []byte, n int, err error)
+	// Truncate is called after a truncation of the target.
+	Truncate func(target any, size int64, err error)
+	// Gate is called around critical sections: obj is the store, method its public method,
+	// point one of "pre" (before acquiring the lock), "locked" (lock held, before the body),
+	// "unlocking" (body done, lock still held), "iter" (an iteration step outside the lock).
+	// It may block: the schedule replayer uses it to force interleavings.
+	Gate func(obj any, method, point string)
+}
+
+var hooks atomic.Pointer[Hooks]
+
+// Set installs h (nil removes all hooks).
+func Set(h *Hooks) { hooks.Store(h) }
+
+const Enabled = true
+
+func OnWrite(target any, off int64, p []byte, n int, err error) {
+	if h := hooks.Load(); h != nil && h.Write != nil {
+		h.Write(target, off, p, n, err)
+	}
+}
+
+func OnTruncate(target any, size int64, err error) {
+	if h := hooks.Load(); h != nil && h.Truncate != nil {
+		h.Truncate(target, size, err)
+	}
+}
+
+func Gate(obj any, method, point string) {
+	if h := hooks.Load(); h != nil && h.Gate != nil {
+		h.Gate(obj, method, point)
+	}
+}
